@@ -235,7 +235,10 @@ func checkNameMeta(res *runner.Result, name string, s *wire.Snap, instName strin
 		res.Violate("blob-name-unparsable", err.Error(), wit)
 		return prevTS
 	}
-	if ni.SyncerName != "db" || s.Meta.DatabaseName != "db" || ni.InstanceID != instName || s.Meta.InstanceID != instName {
+	if instName == "" {
+		instName = s.Meta.InstanceID // not predicted: name and metadata must agree and be non-empty
+	}
+	if ni.SyncerName != "db" || s.Meta.DatabaseName != "db" || ni.InstanceID != instName || s.Meta.InstanceID != instName || instName == "" {
 		res.Violate("name-metadata-identity", fmt.Sprintf("name (%s,%s) metadata (%s,%s) expected (db,%s)", ni.SyncerName, ni.InstanceID, s.Meta.DatabaseName, s.Meta.InstanceID, instName), wit)
 	}
 	ts := uint64(ni.Timestamp.UnixNano())
@@ -270,7 +273,9 @@ func runStatic(p c06Params, env *runner.Env, res *runner.Result, label string) {
 	r := rng.New(p.Seed)
 	ctx := context.Background()
 	b := bucket.New()
-	x, err := inst.New(env.Dir("c06s"), b, "db", "a", inst.Opt{Native: p.Native, MapSize: 2 << 30})
+	// instance names as an operator may configure them: the name in file name and metadata is the sanitised one
+	instRaw := rng.Pick(r, "a", "a", "ns1.example.com", "dc1__ns1", "ns1_", "pod_auth__0", "a b", "x__", "_")
+	x, err := inst.New(env.Dir("c06s"), b, "db", instRaw, inst.Opt{Native: p.Native, MapSize: 2 << 30})
 	if err != nil {
 		res.Verdict, res.Msg = runner.Inconclusive, err.Error()
 		return
@@ -394,7 +399,8 @@ func runStatic(p c06Params, env *runner.Env, res *runner.Result, label string) {
 			return
 		}
 		compareSnap(res, s, exp, wit, fmt.Sprintf("dump %d", d))
-		prevTS = checkNameMeta(res, blobName, s, "a", t0, t1, prevName, prevTS, wit)
+		prevTS = checkNameMeta(res, blobName, s, "", t0, t1, prevName, prevTS, wit)
+		res.Add("instance_names", fmt.Sprintf("%q", instRaw))
 		prevName = blobName
 		res.Count("dumps", 1)
 		res.Count("entries_compared", int64(countEntries(exp)))
